@@ -2,8 +2,11 @@
 package c07
 
 import (
+	"bytes"
 	"encoding/json"
+	"errors"
 	"fmt"
+	"github.com/protobom/protobom/pkg/writer"
 	"os"
 	"os/exec"
 	"strings"
@@ -325,6 +328,7 @@ func Run(c *engine.Ctx) {
 	graphShapes(c)
 	histories(c)
 	fileHistories(c)
+	writerObjectHistories(c)
 }
 
 // graphShapes: totality over containment shapes the construction-step search cannot reach at its depth:
@@ -698,6 +702,87 @@ func fileHistories(c *engine.Ctx) {
 				t.Outcome("file-history-ok:" + fam(k.F))
 				return nil
 			})
+		}
+	}
+}
+
+// failAfter is a destination that accepts n bytes and then fails (a full disk, a closed pipe).
+type failAfter struct {
+	n   int
+	buf bytes.Buffer
+}
+
+func (f *failAfter) Write(p []byte) (int, error) {
+	if len(p) <= f.n {
+		f.n -= len(p)
+		return f.buf.Write(p)
+	}
+	k := f.n
+	f.n = 0
+	f.buf.Write(p[:k])
+	return k, errors.New("no space left on device")
+}
+
+func (f *failAfter) Close() error { return nil }
+
+type okCloser struct{ *bytes.Buffer }
+
+func (okCloser) Close() error { return nil }
+
+// writerObjectHistories: ONE writer value serves a sequence of calls through its plain entry point, and the
+// destination of an earlier call fails after 0, 1, 40 bytes, half of and all but one byte of the document (an
+// environment answer of the stream). The output of the next call equals the output of that call from the initial state:
+// nothing of an earlier document - written, unwritten or half written - comes out with a later one.
+func writerObjectHistories(c *engine.Ctx) {
+	c.Group("writer-object-histories")
+	firsts := []string{"D0-empty", "D2-tree", "D9-cycle", "D11-rich"}
+	docs := histDocs()
+	var names []string
+	for n := range docs {
+		names = append(names, n)
+	}
+	sortStrings(names)
+	cuts := []string{"no fault", "0", "1", "40", "half", "all-but-one"}
+	c.Bound("writer-object-histories", fmt.Sprintf("one Writer value: WriteStream of %d documents x %d formats into a destination that fails after {nothing, 0, 1, 40, half, all but one} bytes, then WriteStream of each of %d documents in the same format into a good destination; second output = output of that call from the initial state", len(firsts), len(histFormats), len(names)))
+	for _, fn := range firsts {
+		for _, f := range histFormats {
+			for _, cut := range cuts {
+				for _, sn := range names {
+					fn, f, cut, sn := fn, f, cut, sn
+					c.Case(func() any {
+						return map[string]any{"writer-format": string(f), "first": fn, "first-destination-fails-after": cut, "second": sn}
+					}, func(t *engine.T) *engine.Violation {
+						w := writer.New(writer.WithFormat(f))
+						full, ferr := rw.Write(proto.Clone(histDocs()[fn]).(*sbom.Document), f, 4)
+						n := map[string]int{"no fault": 1 << 30, "0": 0, "1": 1, "40": 40, "half": len(full) / 2, "all-but-one": len(full) - 1}[cut]
+						if ferr != nil {
+							n = 1 << 30
+						}
+						_ = w.WriteStream(proto.Clone(histDocs()[fn]).(*sbom.Document), &failAfter{n: n})
+						var out bytes.Buffer
+						err := w.WriteStream(proto.Clone(histDocs()[sn]).(*sbom.Document), okCloser{&out})
+						t.Transitions(2)
+						t.Validated(1)
+						want := callOutput(hcall{sn, f})
+						got := "error: "
+						if err == nil {
+							nrm, nerr := rw.NormalizeJSON(out.Bytes())
+							if nerr != nil {
+								return engine.Violate("history-dependent", fam(f), "after a WriteStream of %s whose destination failed after %s bytes, the same writer's output of %s is not a JSON document (%v): %.300q", fn, cut, sn, nerr, out.Bytes())
+							}
+							got = nrm
+						} else if strings.HasPrefix(want, "error: ") {
+							got = want
+						}
+						if got != want {
+							return engine.Violate("history-dependent", fam(f), "after a WriteStream of %s whose destination failed after %s bytes, the same writer's output of %s differs from its output from the initial state:\nafter: %.400s\nfresh: %.400s", fn, cut, sn, got, want)
+						}
+						t.State(fmt.Sprint("woh", fn, f, cut, sn))
+						t.Outcome("writer-history-ok:" + fam(f))
+						return nil
+					})
+				}
+			}
 		}
 	}
 }
